@@ -989,8 +989,10 @@ def read_index_dict_with_version(
         if len(signature) < 4:
             break
 
-        # Check if it's a valid extension signature (4 uppercase letters)
-        if not all(65 <= b <= 90 for b in signature):
+        # Check if it's a valid extension signature (4 letters; upper case for
+        # optional extensions, lower case for those a reader must understand,
+        # like git's "sdir" and "link")
+        if not all(65 <= b <= 90 or 97 <= b <= 122 for b in signature):
             # Not an extension, seek back
             f.seek(-4, 1)
             break
@@ -1007,6 +1009,11 @@ def read_index_dict_with_version(
             break
 
         extension = IndexExtension.from_raw(signature, data)
+        if 97 <= signature[0] <= 122 and type(extension) is IndexExtension:
+            # like git: the entries cannot be interpreted without it
+            raise ValueError(
+                f"index uses {signature!r} extension, which we do not understand"
+            )
         extensions.append(extension)
 
     return ret, version, extensions
